@@ -17,8 +17,9 @@ import J5V.Codec.Decode
 * `Env.flat` ⊇ `Env.simple` — the class the structure-level round trip is proved for:
   additionally **anonymous proto oneofs** in objects (`group`), **exposed oneofs** (empty path)
   and **flattened objects** (proto paths of any positive length, prefix-free), and **j5 `Any`**
-  properties (`.any false`; not as array / map items, which the codec does not support). Still
-  excluded: `google.protobuf.Any` (`.any true`), an exposed oneof inlined from a flattened object
+  properties (`.any false`; not as array / map items, which the codec does not support);
+  `google.protobuf.Any` properties (`.any true`) may be declared but no `valOk` message populates
+  them (see `C01_any_pb_partial`). Still excluded: an exposed oneof inlined from a flattened object
   (its path is a prefix of its siblings' paths).
 -/
 namespace J5V.Codec
@@ -32,7 +33,7 @@ def fieldSimple : Field → Bool
   | .scalar _ | .enum _ | .object _ | .oneof _ => true
   | .array i => itemSimple i
   | .map i => itemSimple i
-  | .any pb => !pb
+  | .any _ => true
 
 def propSimple (p : PropDef) : Bool := p.path.length == 1 && fieldSimple p.field
 
@@ -144,6 +145,18 @@ def Env.noAny (env : Env) : Bool :=
     | .object ps | .oneof ps => ps.all fun p => fieldNoAny p.field
     | _ => true
 
+def fieldNoJ5 : Field → Bool
+  | .any pb => pb
+  | .array i => fieldNoJ5 i
+  | .map i => fieldNoJ5 i
+  | _ => true
+
+/-- no `j5.types.any.v1.Any` field anywhere in the environment (protobuf `Any` fields allowed) -/
+def Env.noJ5Any (env : Env) : Bool :=
+  env.defs.all fun d => match d.2 with
+    | .object ps | .oneof ps => ps.all fun p => fieldNoJ5 p.field
+    | _ => true
+
 /-- scalar values: representable, strings valid UTF-8, decimals in normal form -/
 def scalarOk (O : Oracle) (k : ScalarKind) (v : PVal) : Bool :=
   scalarRepr O k v &&
@@ -186,10 +199,10 @@ def valOk (env : Env) (O : Oracle) : Field → PVal → Bool
     -- a j5 `Any` that carries `j5_json` only: the stored bytes are the compact rendering of a
     -- complete JSON value of nesting depth ≤ 10000 (what `json.Compact` / the codec itself
     -- writes), recognised by the specification-side `O.chunk`; only in an environment that has
-    -- `Any` fields at all
+    -- j5 `Any` fields at all
     match fld, proto, ik, iroot, inner with
     | .any false, [], .none, "", .msg [] =>
-      !env.noAny && isValidUtf8 tn && !j5.isEmpty &&
+      !env.noJ5Any && isValidUtf8 tn && !j5.isEmpty &&
         (match O.chunk j5 with
          | some V => V.render == j5 && V.complete && decide (V.depth ≤ 10000)
          | none => false)
